@@ -234,9 +234,8 @@ def retryWithAuth (r : Req) (c : Code) : Bool := c == .e438 || (c == .e401 && !r
     channel is unwrapped, anything else passes through.  `src` = the peer the base socket reported
     (none = the server).  Every read of the packet is bounds-checked (`fault`). -/
 def unwrapData (s : St) (b : Bytes) (src : Option Nat) : (Option Nat × Bytes) × St :=
-  match s.channels with
-  | [] => ((src, b), s)
-  | _ =>
+  if s.channels.isEmpty then ((src, b), s)
+  else
     -- `b->channel == ntohs (recv_buf.u16[0])` is evaluated for the first binding at least
     let s := if b.length < 2 then { s with fault := true } else s
     let chan := be16 (b.getD 0 0) (b.getD 1 0)
@@ -257,6 +256,29 @@ def recvPlain (s : St) (b : Bytes) (src : Option Nat) : Out × St :=
     let (fd, s) := unwrapData s b src
     -- `*message->from = from` only when something was parsed; otherwise the base socket's source stays
     ({ ret := 1, up := [if fd.2.isEmpty then (src, []) else fd] }, s)
+
+/-- the Data indications the model accepts from the relay: `0017 len cookie txid`, then exactly
+    XOR-PEER-ADDRESS (naming a peer of the table) and DATA.  Returns (peer index, payload). -/
+def parseDataIndication (peers : List PeerAddr) (b : Bytes) : Option (Nat × Bytes) :=
+  let txid := (b.drop 8).take 12
+  if b.take 2 != [0x00, 0x17] || (b.drop 4).take 4 != STUN_MAGIC_COOKIE then none
+  else
+    let body := b.drop 20
+    if be16 (b.getD 2 0) (b.getD 3 0) != body.length then none
+    else
+      (List.range peers.length).findSome? fun i =>
+        match peers[i]? with
+        | none => none
+        | some pa =>
+          let a1 := attr 0x0012 (xorPeerValue pa txid)
+          if body.take a1.length != a1 then none
+          else
+            let rest := body.drop a1.length
+            if rest.take 2 != [0x00, 0x13] then none
+            else
+              let dl := be16 (rest.getD 2 0) (rest.getD 3 0)
+              let data := (rest.drop 4).take dl
+              if rest == attr 0x0013 data && data.length == dl then some (i, data) else none
 
 /-- a well-formed Data indication from the server: XOR-PEER-ADDRESS = peer, DATA = data -/
 def recvDataIndication (s : St) (peer : Nat) (data : Bytes) : Out × St :=
